@@ -3000,14 +3000,115 @@ Section Parse.
       + exists ts'. split; auto. rewrite <- !app_assoc in E. exact E.
   Qed.
 
+  Definition g4_ok (p : pos_sub) : Prop :=
+    pos_wf F p = true /\ match p with Gpos4_1 _ _ _ _ => True | _ => False end.
+  Definition ends4 (ts0 : list token) : Prop :=
+    is_ident (peek_tok endl (skip_eol ts0)) k_mark = false
+    /\ is_ident (peek_tok endl (skip_eol ts0)) k_base = false.
+
+  Lemma map_snd_combine : forall {A B} (a : list A) (b : list B),
+    length a = length b -> map snd (combine a b) = b.
+  Proof. induction a; destruct b; cbn; intros; try discriminate; auto. f_equal. apply IHa. lia. Qed.
+
+  (* the body of the subtable loop of readGpos4 *)
+  Lemma gpos4_sub_ok : forall mc ma bc ba l fuel ts0,
+    g4_ok (Gpos4_1 mc ma bc ba) -> ends4 ts0 ->
+    (length (pos_toks U F (Gpos4_1 mc ma bc ba) false l ++ ts0) < fuel)%nat ->
+    exists ts1 ts',
+      gpos4_marks F endl fuel [] [] (pos_toks U F (Gpos4_1 mc ma bc ba) false l ++ ts0) = POk ((mc, ma), ts1)
+      /\ classes_complete (map fst ma) = true
+      /\ gpos4_bases F endl fuel (num_classes (map fst ma)) [] [] ts1 = POk ((bc, ba), ts')
+      /\ norm ts' = norm (skip_eol ts0).
+  Proof.
+    intros mc ma bc ba l fuel ts0 [W _] [Hk1 Hk2] Hf. cbn [pos_wf] in W. split_wf W.
+    assert (Hmc : Forall (fun g => g < num_glyphs F) mc) by (apply gids_ok_forall; assumption).
+    assert (Hbc : Forall (fun g => g < num_glyphs F) bc) by (apply gids_ok_forall; assumption).
+    assert (Am : ascending mc) by (apply ascendingb_spec; assumption).
+    assert (Ab : ascending bc) by (apply ascendingb_spec; assumption).
+    assert (Lm : length mc = length ma) by (apply Nat.eqb_eq; assumption).
+    assert (Lb : length bc = length ba) by (apply Nat.eqb_eq; assumption).
+    assert (Hma : Forall (fun m : N * anchor => ((fst m <? 65536) && anchor_ok (snd m)) = true) ma)
+      by (apply forallb_Forall; assumption).
+    assert (Hba : Forall (fun an : list anchor => ((length an =? num_classes (map fst ma))%nat && forallb anchor_ok an) = true) ba)
+      by (apply forallb_Forall; assumption).
+    assert (Hcc : classes_complete (map fst ma) = true) by assumption.
+    assert (Mk : Forall mark_ok (combine mc ma)).
+    { pose proof (Forall_combine (fun g => g < num_glyphs F) _ mc ma Hmc Hma) as G.
+      eapply Forall_impl; [|exact G]. intros e [A B]. apply andb_true_iff in B. destruct B as [B1 B2].
+      unfold mark_ok. repeat split; auto. apply N.ltb_lt. exact B1. }
+    assert (Bk : Forall (base_ok (num_classes (map fst ma))) (combine bc ba)).
+    { pose proof (Forall_combine (fun g => g < num_glyphs F) _ bc ba Hbc Hba) as G.
+      eapply Forall_impl; [|exact G]. intros e [A B]. apply andb_true_iff in B. destruct B as [B1 B2].
+      unfold base_ok. repeat split; auto. apply Nat.eqb_eq. exact B1.
+      apply forallb_Forall in B2. exact B2. }
+    unfold pos_toks, gpos4_items in *.
+    destruct (combine mc ma) as [|m ms] eqn:Ecm.
+    { destruct mc; [discriminate|]. destruct ma; [discriminate|discriminate]. }
+    assert (Efm : map fst (m :: ms) = mc) by (rewrite <- Ecm; apply map_fst_combine; auto).
+    assert (Esm : map snd (m :: ms) = ma) by (rewrite <- Ecm; apply map_snd_combine; auto).
+    assert (Efb : map fst (combine bc ba) = bc) by (apply map_fst_combine; auto).
+    assert (Esb : map snd (combine bc ba) = ba) by (apply map_snd_combine; auto).
+    rewrite lines_toks_app_gen in *. cbn [is_nil map] in Hf |- *. rewrite <- app_assoc in *.
+    set (lm := l + lines_dl (length (mark_toks U F m :: map (mark_toks U F) ms)) false) in *.
+    destruct (combine bc ba) as [|b bs] eqn:Ecb.
+    - (* no base glyphs *)
+      change (lines_toks (map (base_toks U F) []) true lm ++ ts0) with ts0 in *.
+      destruct (gpos4_marks_ok ms m l fuel [] [] ts0 Mk) as (ts1 & E1 & N1); auto.
+      { rewrite Efm. exact Am. }
+      { intros q Hq. discriminate Hq. }
+      exists ts1. cbn [app] in E1. rewrite Efm, Esm in E1.
+      destruct fuel as [|fu]; [cbn in Hf; lia|].
+      eexists. split; [exact E1|]. split; [exact Hcc|]. cbn [gpos4_bases].
+      unfold bind at 1. rewrite optional_ident_miss_n by (rewrite (peek_ident_same ts1 (skip_eol ts0)); auto).
+      unfold ret. cbn [map] in Efb, Esb. rewrite <- Efb, <- Esb. split; [reflexivity|].
+      rewrite norm_idem. exact N1.
+    - set (tail := lines_toks (map (base_toks U F) (b :: bs)) true lm ++ ts0) in *.
+      assert (Etl : tail = tk TEOL [10] lm :: (base_toks U F b (lm + 1) ++ lines_toks (map (base_toks U F) bs) true (lm + 1) ++ ts0))
+        by (unfold tail; cbn [map lines_toks app]; rewrite <- app_assoc; reflexivity).
+      destruct (gpos4_marks_ok ms m l fuel [] [] tail Mk) as (ts1 & E1 & N1); auto.
+      { rewrite Efm. exact Am. }
+      { intros q Hq. discriminate Hq. }
+      cbn [app] in E1. rewrite Efm, Esm in E1.
+      assert (Ets : ts1 = base_toks U F b (lm + 1) ++ lines_toks (map (base_toks U F) bs) true (lm + 1) ++ ts0).
+      { rewrite Etl in N1. cbn [skip_eol ttyp ityp_eqb] in N1. unfold base_toks in N1 at 1. cbn [app] in N1.
+        rewrite norm_cons2 in N1. apply norm_eq_cons in N1. rewrite N1. unfold base_toks. reflexivity. }
+      exists ts1.
+      destruct (gpos4_bases_ok bs b (lm + 1) fuel (num_classes (map fst ma)) [] [] ts0 Bk) as (ts' & E2 & N2); auto.
+      { rewrite Efb. exact Ab. }
+      { intros q Hq. discriminate Hq. }
+      { clear - Hf Etl. rewrite Etl in Hf. rewrite app_length in Hf. cbn [length] in Hf.
+        cbn [map lines_toks app]. rewrite <- app_assoc. lia. }
+      exists ts'. split; [exact E1|]. split; [exact Hcc|]. split; [|exact N2].
+      rewrite Ets. rewrite Efb, Esb in E2. cbn [map lines_toks app] in E2. rewrite <- app_assoc in E2. exact E2.
+  Qed.
+
   (* one GPOS lookup inside parse(): the generic list lemma *)
+  (* what follows a lookup in the text written by ExplainGpos: the end, or a
+     newline and the next lookup *)
   Definition ends_top (ts0 : list token) : Prop :=
-    ttyp (peek_tok endl ts0) = TEOL \/ ttyp (peek_tok endl ts0) = TEOF.
+    (exists e, ts0 = [tk TEOF [] e])
+    \/ (exists e ty l2 more, ts0 = tk TEOL [10] e :: tk TIdent (k_GPOS ++ digits ty) l2 :: tk TColon [58] l2 :: more).
   Lemma ends_top_gpos : forall ts0, ends_top ts0 -> ends_gpos ts0.
-  Proof. intros ts0 [H|H]; unfold ends_gpos; rewrite H; repeat split; reflexivity. Qed.
+  Proof.
+    intros ts0 [(e & H)|(e & ty & l2 & more & H)]; subst; unfold ends_gpos; cbn; repeat split; reflexivity.
+  Qed.
   Lemma ends_top_gpos3 : forall ts0, ends_top ts0 -> ends_gpos3 ts0.
   Proof.
-    intros ts0 H. split; [apply ends_top_gpos; auto|]. destruct H as [H|H]; unfold ends3; rewrite H; reflexivity.
+    intros ts0 H. split; [apply ends_top_gpos; auto|].
+    destruct H as [(e & H)|(e & ty & l2 & more & H)]; subst; unfold ends3; reflexivity.
+  Qed.
+  Lemma ends_top_gpos4 : forall ts0, ends_top ts0 ->
+    ends4 ts0 /\ ityp_eqb (ttyp (peek_tok endl (skip_eol ts0))) TOr = false.
+  Proof.
+    intros ts0 [(e & H)|(e & ty & l2 & more & H)]; subst; unfold ends4; cbn; repeat split; reflexivity.
+  Qed.
+
+  Lemma gpos_toks_head : forall lk r l X, l_subs lk <> [] ->
+    exists more, gpos_toks U F (lk :: r) l ++ X
+                 = tk TIdent (k_GPOS ++ digits (l_type lk)) l :: tk TColon [58] l :: more.
+  Proof.
+    intros lk r l X H. destruct r; cbn [gpos_toks]; unfold lookup_toks; destruct (l_subs lk) as [|s ss]; try congruence;
+      cbn [subs_toks]; unfold hdr_toks; cbn [app]; eexists; reflexivity.
   Qed.
 
   Lemma gpos_list_ok : forall (wf : lookup -> Prop),
@@ -3015,7 +3116,8 @@ Section Parse.
     (forall (lk : lookup) (l : N) (fu : nat) (acc : list lookup) (ts0 : list token), wf lk -> ends_top ts0 ->
        (length (lookup_toks U F k_GPOS lk l ++ ts0) < S (S fu))%nat ->
        exists ts', parse_loop F endl (S (S fu)) acc (lookup_toks U F k_GPOS lk l ++ ts0)
-                   = parse_loop F endl (S fu) (acc ++ [lk]) ts' /\ norm ts' = norm ts0) ->
+                   = parse_loop F endl (S fu) (acc ++ [lk]) ts'
+                   /\ (norm ts' = norm ts0 \/ norm ts' = norm (skip_eol ts0))) ->
     forall ll l fuel acc e, Forall wf ll ->
     (length (gpos_toks U F ll l ++ [tk TEOF [] e]) < fuel)%nat ->
     exists ts', parse_loop F endl fuel acc (gpos_toks U F ll l ++ [tk TEOF [] e]) = POk (acc ++ ll, ts').
@@ -3027,26 +3129,144 @@ Section Parse.
       destruct r as [|lk2 r'].
       + cbn [gpos_toks] in *.
         destruct fuel as [|[|fu]]; try (exfalso; clear - Hf Hl2; fuel_tac).
-        destruct (Hone lk l fu acc [tk TEOF [] e] Hlk) as (ts' & Er & En); [right; reflexivity|exact Hf|].
+        destruct (Hone lk l fu acc [tk TEOF [] e] Hlk) as (ts' & Er & En); [left; eexists; reflexivity|exact Hf|].
+        assert (En' : norm ts' = norm [tk TEOF [] e]) by (destruct En as [En|En]; exact En).
         rewrite Er. cbn [parse_loop]. unfold bind at 1.
         destruct (read_unread ts') as [R _]. rewrite R.
-        rewrite (peek_typ_same ts' [tk TEOF [] e] En). cbn [peek_tok ttyp]. unfold ret. eauto.
+        rewrite (peek_typ_same ts' [tk TEOF [] e] En'). cbn [peek_tok ttyp]. unfold ret. eauto.
       + assert (Eg : gpos_toks U F (lk :: lk2 :: r') l
                      = lookup_toks U F k_GPOS lk l ++ [tk TEOL [10] (l + subs_dl (l_subs lk))]
                          ++ gpos_toks U F (lk2 :: r') (l + subs_dl (l_subs lk) + 1)) by reflexivity.
         rewrite Eg in *. clear Eg. rewrite <- !app_assoc in *. cbn [app] in *.
         set (rest := gpos_toks U F (lk2 :: r') (l + subs_dl (l_subs lk) + 1) ++ [tk TEOF [] e]) in *.
+        inversion Hr as [|? ? Hlk2 _]; subst.
+        destruct (gpos_toks_head lk2 r' (l + subs_dl (l_subs lk) + 1) [tk TEOF [] e] (Hne lk2 Hlk2)) as (more & Em).
+        fold rest in Em.
         destruct fuel as [|[|fu]]; try (exfalso; clear - Hf Hl2; fuel_tac).
         destruct (Hone lk l fu acc (tk TEOL [10] (l + subs_dl (l_subs lk)) :: rest) Hlk) as (ts' & Er & En);
-          [left; reflexivity|exact Hf|].
-        rewrite norm_cons_ne in En by reflexivity. apply norm_eq_cons in En. subst ts'.
+          [right; rewrite Em; do 4 eexists; reflexivity|exact Hf|].
         rewrite Er.
-        destruct fu as [|fu']; [exfalso; unfold rest in *; clear - Hf Hl2; fuel_tac|].
-        change (parse_loop F endl (S (S fu')) (acc ++ [lk]) (tk TEOL [10] (l + subs_dl (l_subs lk)) :: rest))
-          with (parse_loop F endl (S fu') (acc ++ [lk]) rest).
-        destruct (IH (l + subs_dl (l_subs lk) + 1) (S fu') (acc ++ [lk]) e Hr) as (ts'' & E2).
-        * unfold rest in *. clear - Hf Hl2. fuel_tac.
-        * exists ts''. unfold rest. rewrite <- app_assoc in E2. exact E2.
+        destruct fu as [|fu']; [exfalso; clear - Hf Hl2; fuel_tac|].
+        assert (Hf2 : (length rest < S fu')%nat) by (clear - Hf Hl2; fuel_tac).
+        destruct En as [En|En].
+        * rewrite norm_cons_ne in En by reflexivity. apply norm_eq_cons in En. subst ts'.
+          change (parse_loop F endl (S (S fu')) (acc ++ [lk]) (tk TEOL [10] (l + subs_dl (l_subs lk)) :: rest))
+            with (parse_loop F endl (S fu') (acc ++ [lk]) rest).
+          destruct (IH (l + subs_dl (l_subs lk) + 1) (S fu') (acc ++ [lk]) e Hr) as (ts'' & E2); [exact Hf2|].
+          exists ts''. unfold rest. rewrite <- app_assoc in E2. exact E2.
+        * cbn [skip_eol ttyp ityp_eqb] in En. rewrite Em in En. rewrite norm_cons2 in En.
+          apply norm_eq_cons in En. rewrite <- Em in En. subst ts'.
+          destruct (IH (l + subs_dl (l_subs lk) + 1) (S (S fu')) (acc ++ [lk]) e Hr) as (ts'' & E2); [unfold rest in Hf2; lia|].
+          exists ts''. unfold rest. rewrite <- app_assoc in E2. exact E2.
+  Qed.
+
+  (* ---- GPOS4: the subtable loop and the lookup ---- *)
+  Lemma gpos4_loop_ok : forall ps hdr p l fuel acc ts0,
+    Forall g4_ok (p :: ps) -> ends4 ts0 -> ityp_eqb (ttyp (peek_tok endl (skip_eol ts0))) TOr = false ->
+    (length (pos_toks U F p false l ++ subs_toks U F hdr (map Pos ps) false (l + pos_dl p false) ++ ts0) < fuel)%nat ->
+    exists ts', gpos4_loop F endl fuel acc (pos_toks U F p false l ++ subs_toks U F hdr (map Pos ps) false (l + pos_dl p false) ++ ts0)
+                = POk (acc ++ map Pos (p :: ps), ts') /\ norm ts' = norm (skip_eol ts0).
+  Proof.
+    induction ps as [|p' ps IH]; intros hdr p l fuel acc ts0 Hs Hts Hor Hf;
+      (destruct fuel as [|fu]; [cbn in Hf; lia|]);
+      inversion Hs as [|? ? Hp Hps]; subst;
+      (destruct p as [|mc ma bc ba]; [destruct Hp as [_ []]|]).
+    - cbn [map subs_toks app] in *.
+      destruct (gpos4_sub_ok mc ma bc ba l (S fu) ts0 Hp Hts Hf) as (ts1 & ts2 & E1 & Hcc & E2 & N2).
+      change (gpos4_loop F endl (S fu) acc) with
+        (fun ts => (mm <- gpos4_marks F endl (S fu) [] [] ;;
+           if classes_complete (map fst (snd mm)) then
+             bb <- gpos4_bases F endl (S fu) (num_classes (map fst (snd mm))) [] [] ;;
+             b <- optional endl TOr ;;
+             if b then (optional endl TEOL ;;; gpos4_loop F endl fu (acc ++ [Pos (Gpos4_1 (fst mm) (snd mm) (fst bb) (snd bb))]))
+             else ret (acc ++ [Pos (Gpos4_1 (fst mm) (snd mm) (fst bb) (snd bb))])
+           else fatal endl) ts).
+      cbv beta. unfold bind at 1. rewrite E1. cbn [fst snd]. rewrite Hcc.
+      unfold bind at 1. rewrite E2. cbn [fst snd].
+      unfold bind at 1. rewrite optional_miss_n by (rewrite (peek_typ_same ts2 (skip_eol ts0) N2); exact Hor).
+      unfold ret. eexists. split; [reflexivity|]. rewrite norm_idem. exact N2.
+    - cbn [map subs_toks] in *. cbn [sub_toksp sub_dlp] in *. rewrite <- !app_assoc in *. cbn [app] in *.
+      set (l0 := l + pos_dl (Gpos4_1 mc ma bc ba) false) in *.
+      set (X := tk TOr [124; 124] l0 :: tk TEOL [10] l0 :: pos_toks U F p' false (l0 + 1)
+                  ++ subs_toks U F hdr (map Pos ps) false (l0 + 1 + pos_dl p' false) ++ ts0) in *.
+      assert (HX : ends4 X) by (split; reflexivity).
+      destruct (gpos4_sub_ok mc ma bc ba l (S fu) X Hp HX Hf) as (ts1 & ts2 & E1 & Hcc & E2 & N2).
+      assert (Ex : ts2 = X).
+      { unfold X in N2. cbn [skip_eol ttyp ityp_eqb] in N2. rewrite norm_cons2 in N2. apply norm_eq_cons in N2. exact N2. }
+      subst ts2.
+      change (gpos4_loop F endl (S fu) acc) with
+        (fun ts => (mm <- gpos4_marks F endl (S fu) [] [] ;;
+           if classes_complete (map fst (snd mm)) then
+             bb <- gpos4_bases F endl (S fu) (num_classes (map fst (snd mm))) [] [] ;;
+             b <- optional endl TOr ;;
+             if b then (optional endl TEOL ;;; gpos4_loop F endl fu (acc ++ [Pos (Gpos4_1 (fst mm) (snd mm) (fst bb) (snd bb))]))
+             else ret (acc ++ [Pos (Gpos4_1 (fst mm) (snd mm) (fst bb) (snd bb))])
+           else fatal endl) ts).
+      cbv beta. unfold bind at 1. rewrite E1. cbn [fst snd]. rewrite Hcc.
+      unfold bind at 1. rewrite E2. cbn [fst snd]. unfold X at 1.
+      unfold bind at 1. rewrite optional_hit by reflexivity.
+      unfold bind at 1. rewrite optional_hit by reflexivity.
+      destruct (IH hdr p' (l0 + 1) fu (acc ++ [Pos (Gpos4_1 mc ma bc ba)]) ts0 Hps Hts Hor) as (ts'' & E3 & N3).
+      + clear - Hf. unfold X in Hf. rewrite app_length in Hf. cbn [length] in Hf. lia.
+      + exists ts''. split; auto. rewrite E3. rewrite <- app_assoc. reflexivity.
+  Qed.
+
+  Lemma g4_subs_shape : forall subs,
+    forallb (fun s => match s with Pos (Gpos4_1 a b c d) => pos_wf F (Gpos4_1 a b c d) | _ => false end) subs = true ->
+    exists ps, subs = map Pos ps /\ Forall g4_ok ps.
+  Proof.
+    induction subs as [|s r IH]; intros H.
+    - exists []. split; auto.
+    - cbn [forallb] in H. apply andb_true_iff in H. destruct H as [H1 H2].
+      destruct (IH H2) as (ps & E & Hc). destruct s as [p| | | | | | | | |]; try discriminate.
+      destruct p as [|a b c d]; [discriminate|]. exists (Gpos4_1 a b c d :: ps). subst. split; auto.
+      constructor; auto. split; auto.
+  Qed.
+
+  Lemma g4_first : forall p l, g4_ok p ->
+    pos_toks U F p true l = tk TEOL [10] l :: pos_toks U F p false (l + 1)
+    /\ pos_dl p true = 1 + pos_dl p false
+    /\ exists ts, pos_toks U F p false (l + 1) = tk TIdent k_mark (l + 1) :: ts.
+  Proof.
+    intros p l [W Wp]. destruct p as [|mc ma bc ba]; [contradiction|]. cbn [pos_wf] in W. split_wf W.
+    unfold pos_toks, pos_dl, gpos4_items.
+    destruct mc as [|g mc]; [discriminate|]. destruct ma as [|m ma]; [discriminate|].
+    cbn [combine map app lines_toks length lines_dl Nat.add]. split; [reflexivity|]. split; [lia|].
+    unfold mark_toks at 1. cbn [app]. eexists. reflexivity.
+  Qed.
+
+  Lemma gpos_one_4 : forall lk l fu acc ts0, gpos4_lookup_wf F lk = true ->
+    ends4 ts0 -> ityp_eqb (ttyp (peek_tok endl (skip_eol ts0))) TOr = false ->
+    (length (lookup_toks U F k_GPOS lk l ++ ts0) < S (S fu))%nat ->
+    exists ts', parse_loop F endl (S (S fu)) acc (lookup_toks U F k_GPOS lk l ++ ts0)
+                = parse_loop F endl (S fu) (acc ++ [lk]) ts' /\ norm ts' = norm (skip_eol ts0).
+  Proof.
+    intros lk l fu acc ts0 Hlk Hts Hor Hf. unfold gpos4_lookup_wf in Hlk. split_wf Hlk.
+    destruct lk as [ty fl subs]. cbn [l_type l_flags l_subs] in *.
+    match goal with Hx : (ty =? 4) = true |- _ => apply N.eqb_eq in Hx; subst ty end.
+    match goal with Hx : forallb _ subs = true |- _ => destruct (g4_subs_shape _ Hx) as (ps & Es & Hps) end.
+    subst subs. destruct ps as [|p ps]; [discriminate|].
+    inversion Hps as [|? ? Hp _]; subst.
+    destruct (g4_first p l Hp) as (Et1 & Ed1 & ts & Eh).
+    unfold lookup_toks, hdr_toks in *. cbn [l_subs l_type l_flags map subs_toks sub_toksp sub_dlp app] in *.
+    rewrite Et1, Ed1 in *. rewrite <- !app_assoc in *. cbn [app] in *.
+    replace (l + (1 + pos_dl p false)) with (l + 1 + pos_dl p false) in * by lia.
+    cbn [parse_loop]. unfold bind at 1. cbn [read ttyp tval].
+    change (list_eqb (k_GPOS ++ digits 4) k_GSUB1) with false. change (list_eqb (k_GPOS ++ digits 4) k_GSUB2) with false.
+    change (list_eqb (k_GPOS ++ digits 4) k_GSUB3) with false. change (list_eqb (k_GPOS ++ digits 4) k_GSUB4) with false.
+    change (list_eqb (k_GPOS ++ digits 4) k_GSUB5) with false. change (list_eqb (k_GPOS ++ digits 4) k_GSUB6) with false.
+    change (list_eqb (k_GPOS ++ digits 4) k_GPOS1) with false. change (list_eqb (k_GPOS ++ digits 4) k_GPOS2) with false.
+    change (list_eqb (k_GPOS ++ digits 4) k_GPOS3) with false. change (list_eqb (k_GPOS ++ digits 4) k_GPOS4) with true.
+    cbv iota.
+    unfold bind at 1. unfold read_gpos4. unfold bind at 1.
+    rewrite Eh in *. cbn [app] in *.
+    rewrite header_ok_nl; auto; [|clear - Hf; fuel_tac].
+    change (tk TIdent k_mark (l + 1) :: ts ++ subs_toks U F (fun l0 => tk TIdent (k_GPOS ++ digits 4) l0 :: tk TColon [58] l0 :: flag_toks fl l0) (map Pos ps) false (l + 1 + pos_dl p false) ++ ts0)
+      with ((tk TIdent k_mark (l + 1) :: ts) ++ subs_toks U F (fun l0 => tk TIdent (k_GPOS ++ digits 4) l0 :: tk TColon [58] l0 :: flag_toks fl l0) (map Pos ps) false (l + 1 + pos_dl p false) ++ ts0).
+    rewrite <- Eh.
+    destruct (gpos4_loop_ok ps (fun l0 => tk TIdent (k_GPOS ++ digits 4) l0 :: tk TColon [58] l0 :: flag_toks fl l0) p (l + 1) (S (S fu)) [] ts0 Hps Hts Hor) as (ts' & El & En).
+    - rewrite Eh. clear - Hf. fuel_tac.
+    - unfold bind at 1. rewrite El. cbn [app]. unfold ret, mk_lookup. exists ts'. auto.
   Qed.
 
   Lemma gpos_one_1 : forall lk l fu acc ts0, gpos_lookup_wf F lk = true -> ends_gpos ts0 ->
@@ -3073,7 +3293,8 @@ Section Parse.
     apply (gpos_list_ok (fun lk => gpos_lookup_wf F lk = true)).
     - intros lk H E. unfold gpos_lookup_wf in H. rewrite E in H. cbn [is_nil negb] in H.
       rewrite andb_false_r in H. discriminate.
-    - intros. apply gpos_one_1; auto. apply ends_top_gpos; auto.
+    - intros lk l fu acc ts0 H Ht Hf.
+      destruct (gpos_one_1 lk l fu acc ts0 H (ends_top_gpos _ Ht) Hf) as (ts' & E1 & E2). exists ts'. auto.
   Qed.
 
   Lemma gpos_all_parse_ok : forall ll l fuel acc e,
@@ -3082,12 +3303,14 @@ Section Parse.
     exists ts', parse_loop F endl fuel acc (gpos_toks U F ll l ++ [tk TEOF [] e]) = POk (acc ++ ll, ts').
   Proof.
     apply (gpos_list_ok (fun lk => gpos_lookup_wf_all F lk = true)).
-    - intros lk H E. unfold gpos_lookup_wf_all, gpos_lookup_wf, gpos3_lookup_wf in H. rewrite E in H.
+    - intros lk H E. unfold gpos_lookup_wf_all, gpos_lookup_wf, gpos3_lookup_wf, gpos4_lookup_wf in H. rewrite E in H.
       cbn [is_nil negb] in H. rewrite ?andb_false_r in H. discriminate.
     - intros lk l fu acc ts0 H Ht Hf. unfold gpos_lookup_wf_all in H.
       repeat (apply orb_true_iff in H; destruct H as [H|H]).
-      + apply gpos_one_1; auto. apply ends_top_gpos; auto.
-      + apply gpos_one_3; auto. apply ends_top_gpos3; auto.
+      + destruct (gpos_one_1 lk l fu acc ts0 H (ends_top_gpos _ Ht) Hf) as (ts' & E1 & E2). exists ts'. auto.
+      + destruct (gpos_one_3 lk l fu acc ts0 H (ends_top_gpos3 _ Ht) Hf) as (ts' & E1 & E2). exists ts'. auto.
+      + destruct (ends_top_gpos4 _ Ht) as [T1 T2].
+        destruct (gpos_one_4 lk l fu acc ts0 H T1 T2 Hf) as (ts' & E1 & E2). exists ts'. auto.
   Qed.
 End Parse.
 
